@@ -6,6 +6,7 @@ import (
 	"io/fs"
 	"sort"
 	"strings"
+	"syscall"
 	"testing/fstest"
 	"time"
 
@@ -95,6 +96,22 @@ type c18Case struct {
 	// Wide, when set, replaces the layer table: a directory "w" with N entries spread over
 	// NL layers by Pattern (listings long enough to leave any small-input path of a sort)
 	Wide *c18Wide `json:"wide,omitempty"`
+	// OSLike: the layers answer like a directory of the operating system: a path below a regular
+	// file fails with ENOTDIR ("not a directory"), not with fs.ErrNotExist
+	OSLike bool `json:"oslike,omitempty"`
+}
+
+// osLikeFS wraps a layer: looking up a path whose parent is a regular file reports ENOTDIR.
+type osLikeFS struct{ fs.FS }
+
+func (o osLikeFS) Open(name string) (fs.File, error) {
+	parts := strings.Split(name, "/")
+	for i := 1; i < len(parts); i++ {
+		if fi, err := fs.Stat(o.FS, strings.Join(parts[:i], "/")); err == nil && !fi.IsDir() {
+			return nil, &fs.PathError{Op: "open", Path: name, Err: syscall.ENOTDIR}
+		}
+	}
+	return o.FS.Open(name)
 }
 
 type c18Wide struct {
@@ -145,8 +162,21 @@ type c18Model struct {
 	desc   []string
 }
 
+// first0: the first layer that has p (nil when none)
+func first0(layers []fs.FS, p string) fs.FS {
+	for _, l := range layers {
+		if kindIn(l, p) != "-" {
+			return l
+		}
+	}
+	return nil
+}
+
 // kind of path p in layer: "-" absent, "f" file, "d" dir
 func kindIn(l fs.FS, p string) string {
+	if l == nil {
+		return "-"
+	}
 	fi, err := fs.Stat(l, p)
 	if err != nil {
 		return "-"
@@ -216,7 +246,11 @@ func (c *c18Case) Run(ctx *core.Ctx) {
 			continue
 		}
 		l := c18Layers[li].build(pos)
-		stack = append(stack, l)
+		if c.OSLike {
+			stack = append(stack, osLikeFS{l})
+		} else {
+			stack = append(stack, l)
+		}
 		m.layers = append(m.layers, l)
 	}
 	o := vuego.NewOverlayFS(stack[0], stack[1:]...)
@@ -239,7 +273,12 @@ func (c *c18Case) Run(ctx *core.Ctx) {
 			}
 		}
 		pat := m.pattern(p) + nilTag
-		if m.mixed(p) {
+		if c.OSLike {
+			pat += "+oslike"
+		}
+		if m.mixed(p) && kindIn(first0(m.layers, p), p) == "d" {
+			// the first layer that has p has a directory where a layer above has a file of a prefix's name:
+			// what a directory below a shadowing file is, is not stated
 			ctx.Zone("file-over-directory")
 			continue
 		}
@@ -514,7 +553,7 @@ func init() {
 			"quick":    "wide N<=20; all stacks of <=2 layers over 48 layer configs + nil; 3-layer stacks over a 12-config subset + nil",
 			"thorough": "wide N<=40; all stacks of <=3 layers over 48 layer configs + nil; 4-layer stacks over the 12-config subset + nil",
 		},
-		Assumptions: []string{"testing/fstest.MapFS is a correct fs.FS", "access below a name that is a file in an upper layer and a directory in a lower one is unconstrained"},
+		Assumptions: []string{"testing/fstest.MapFS is a correct fs.FS", "listing or walking a name that is a file in an upper layer and a directory in a lower one is unconstrained (files below it are served from the first layer that has them)"},
 		Decode:      core.DecodeAs[c18Case](),
 		Enumerate: func(tier string, emit func(core.Case)) {
 			all := []int{-1}
@@ -542,6 +581,12 @@ func init() {
 					for n := 1; n <= maxN; n++ {
 						emit(&c18Case{Wide: &c18Wide{N: n, NL: nl, Pattern: pat}})
 					}
+				}
+			}
+			// layers that answer like OS directories (ENOTDIR below a file), stacks of 2
+			for _, i := range all {
+				for _, j := range all {
+					emit(&c18Case{Layers: []int{i, j}, OSLike: true})
 				}
 			}
 			rec(nil, 1, all)
